@@ -198,6 +198,8 @@ def _storage_class(
 
 def _validate_storage(storage: str | dict[OUTPUT_TYPE, str], pipeline: Pipeline) -> None:
     """Resolve the storage class of every mapped output *before* the run folder is touched."""
+    for name in [storage] if isinstance(storage, str) else storage.values():
+        get_storage_class(name)  # unknown names are an error even if no output ends up using them
     for f in pipeline.functions:
         if f.mapspec is not None and f.mapspec.inputs:
             _storage_class(storage, f.output_name)
